@@ -109,10 +109,14 @@ struct GenState {
 
   void removeTopPotBreak() {
     if (out.code.back().op == OpCode::POTENTIAL_BREAK) {
-      BreakPoint bp = this->out.line_info[this->getNextPos() - 1];
-      this->out.line_info.erase(
-          this->out.line_info.find(this->getNextPos() - 1));
-      this->out.potential_breaks.erase(this->out.potential_breaks.find(bp));
+      ProgramIndex pos = this->getNextPos() - 1;
+      BreakPoint bp = this->out.line_info[pos];
+      this->out.line_info.erase(this->out.line_info.find(pos));
+      // remove only this site: the line may own other sites emitted earlier
+      auto entry = this->out.potential_breaks.find(bp);
+      std::vector<ProgramIndex> &sites = entry->second;
+      sites.erase(std::remove(sites.begin(), sites.end(), pos), sites.end());
+      if (sites.empty()) this->out.potential_breaks.erase(entry);
       out.code.pop_back();
     }
   }
